@@ -247,6 +247,11 @@ func onRuleUpdate(rawResRulesMap map[string][]*Rule) (err error) {
 				logging.Warn("[CircuitBreaker onRuleUpdate] Ignoring invalid circuit breaking rule when loading new rules", "rule", rule, "err", err.Error())
 				continue
 			}
+			if cbGenFuncMap[rule.Strategy] == nil {
+				// no breaker can be built for it, so it must not be reported as a rule in force either
+				logging.Warn("[CircuitBreaker onRuleUpdate] Ignoring the rule due to unsupported circuit breaking strategy", "rule", rule)
+				continue
+			}
 			validResRules = append(validResRules, rule)
 		}
 		if len(validResRules) > 0 {
@@ -299,6 +304,11 @@ func onResourceRuleUpdate(res string, rawResRules []*Rule) (err error) {
 	for _, rule := range rawResRules {
 		if err := IsValidRule(rule); err != nil {
 			logging.Warn("[CircuitBreaker onResourceRuleUpdate] Ignoring invalid circuitBreaker rule", "rule", rule, "reason", err.Error())
+			continue
+		}
+		if cbGenFuncMap[rule.Strategy] == nil {
+			// no breaker can be built for it, so it must not be reported as a rule in force either
+			logging.Warn("[CircuitBreaker onResourceRuleUpdate] Ignoring the rule due to unsupported circuit breaking strategy", "rule", rule)
 			continue
 		}
 		validResRules = append(validResRules, rule)
